@@ -5,6 +5,7 @@ import EaselModel.Weights.Adv
 import EaselModel.Weights.Deal64
 import EaselModel.Weights.Tree
 import EaselModel.Weights.Engine
+import EaselModel.Weights.TreeOps
 import EaselModel.Weights.SymfracRule
 import EaselModel.Weights.Distance
 /-! Line-protocol driver for the C16 model (`Float` instance of `EaselModel.Weights`). Mirrors harness/h_weights.c. -/
@@ -55,6 +56,48 @@ def ruleOf (sf : Float32) (gap tot : Nat) : Bool :=
 def sortAsc (xs : List Nat) : List Nat := (xs.toArray.qsort (· < ·)).toList
 
 def weightsLine (s : S) (w : List Float) : String := s!"ok hw={if s.rows.size == 1 then 0 else 1} w={dlist w}"
+
+/-- `esl_DCompare_old(a, b, tol) == eslOK` -/
+def dcompareOld (tol a b : Float) : Bool :=
+  if a.isInf && b.isInf then true
+  else if a.isNaN && b.isNaN then true
+  else if !a.isFinite || !b.isFinite then false
+  else if a == b then true
+  else if a.abs == 0.0 && b.abs ≤ tol then true
+  else if b.abs == 0.0 && a.abs ≤ tol then true
+  else if 2.0 * (a - b).abs / (a + b).abs ≤ tol then true
+  else false
+
+/-- the literal `0.0001` of esl_tree_VerifyUltrametric as gcc rounds it -/
+def tol1e4 : Float := Float.ofBits 0x3F1A36E2EB1C432D
+
+def vuName : VU → String
+  | .ok => "ok" | .fail => "fail" | .oops => "einconceivable"
+
+def ilist (xs : List Int) : String := if xs.isEmpty then "-" else ",".intercalate (xs.map toString)
+
+/-- `(double) k * -log(esl_rnd_UniformPositive(r))` -/
+def expDraw (k : Nat) (r : Rng) : Option (Float × Rng) :=
+  (r.uniformPositive 1000).map fun (x, r') => (Float.ofNat k * (-(Float.log (Float.ofNat x / 4294967296.0))), r')
+
+/-- the draws `esl_tree_Simulate(r, N, …)` makes: (d, bidx) for nactive = 2..N-1, then the final d -/
+def simDraws (N : Nat) : Nat → Nat → Rng → List (Float × Nat) → Option (List (Float × Nat) × Float × Rng)
+  | 0, _, _, _ => none
+  | fuel + 1, nactive, r, acc =>
+    if nactive < N then
+      match expDraw nactive r with
+      | none => none
+      | some (d, r1) =>
+        match r1.roll nactive 1000 with
+        | none => none
+        | some (b, r2) => simDraws N fuel (nactive + 1) r2 ((d, b) :: acc)
+    else (expDraw N r).map fun (d, r') => (acc.reverse, d, r')
+
+def treeOfMx (ws : List String) (key : String) (n : Nat) (d : Nat → Nat → Float) : Option (Link × KState Float) :=
+  let lk := (argNat? ws key).getD 0
+  if lk > 3 then none else
+  let L : Link := if lk == 0 then .upgma else if lk == 1 then .wpgma else if lk == 2 then .single else .complete
+  some (L, linkTree (α := Float) L n d)
 
 def S.jc (s : S) : JCMode := if s.mode == 0 then JCMode.text else JCMode.digital s.abc
 
@@ -304,6 +347,39 @@ def step (s : S) (line : String) : S × String :=
       let valid := wellFormedB n st.nodes.reverse && st.nodes.all fun nd => !(nd.l < 0.0) && !(nd.r < 0.0)
       (s, s!"ok valid={if valid then 1 else 0} N={n} lt={if L.isLinkage then 1 else 0} left={il t.left} right={il t.right} parent={il t.parent} ld={dlist t.ld} rd={dlist t.rd} tp={il t.taxaparent} cs={nlist t.cladesize}")
     | _, _ => (s, "bad-op")
+  | "treeops" :: _ =>
+    match argNat? ws "n", arg? ws "d" with
+    | some n, some dl =>
+      let ds := ((dl.splitOn ",").map fun t => match parseHexNat t with
+        | some v => Float.ofBits (UInt64.ofNat v) | none => 0.0).toArray
+      if n < 2 || ds.size != n * (n - 1) / 2 then (s, "bad-op") else
+      let d := fun (x y : Nat) => ds.getD (x * n - x * (x + 1) / 2 + (y - x - 1)) 0.0
+      match treeOfMx ws "link" n d, treeOfMx ws "link2" n d with
+      | some (_, st), some (_, st2) =>
+        let t := ETree.ofCTree n (toCTree n st)
+        let t2 := ETree.ofCTree n (toCTree n st2)
+        let cmp := dcompareOld tol1e4
+        let st3 := fun (b : Bool) => if b then "ok" else "fail"
+        let dm := match eToDistanceMatrix t with
+          | some l => dlist l | none => "loop"
+        let (tr, tpr, _) := eRenumber t (some (eTaxaParents t))
+        let valid := wellFormedB n st.nodes.reverse && st.nodes.all fun nd => !(nd.l < 0.0) && !(nd.r < 0.0)
+        (s, s!"ok vu={vuName (eVerifyUltrametric t cmp)} dm={dm} dmsym=1 cs={nlist (eCladesizes t).toList} cmpself={st3 (eCompare t t)} cmp={st3 (eCompare t t2)} rn=ok left={ilist tr.left.toList} right={ilist tr.right.toList} parent={ilist tr.parent.toList} ld={dlist tr.ld.toList} rd={dlist tr.rd.toList} tp={ilist ((tpr.getD #[]).toList)} valid={if valid then 1 else 0} vu2={vuName (eVerifyUltrametric tr cmp)} cmp2={st3 (eCompare t2 tr)}")
+      | _, _ => (s, "bad-op")
+    | _, _ => (s, "bad-op")
+  | "simulate" :: _ =>
+    match argNat? ws "n" with
+    | some n =>
+      let seed := (argNat? ws "seed").getD 42
+      if n < 2 || n > 4096 || seed == 0 || seed ≥ 4294967296 then (s, "bad-op") else
+      match simDraws n (n + 1) 2 (Rng.create .mersenne (UInt32.ofNat seed)) [] with
+      | none => (s, "no-halt")
+      | some (draws, dlast, r') =>
+        let t := eSimulate (α := Float) n draws dlast
+        let cmp := dcompareOld tol1e4
+        let (tr, _, _) := eRenumber t none
+        (s, s!"ok next={r'.next.1.toNat} left={ilist t.left.toList} right={ilist t.right.toList} parent={ilist t.parent.toList} ld={dlist t.ld.toList} rd={dlist t.rd.toList} tp={ilist (eTaxaParents t).toList} cs={nlist (eCladesizes t).toList} valid=1 vu={vuName (eVerifyUltrametric t cmp)} rn=ok rleft={ilist tr.left.toList} rright={ilist tr.right.toList} rparent={ilist tr.parent.toList} cmp={if eCompare t tr then "ok" else "fail"}")
+    | none => (s, "bad-op")
   | "deal64" :: _ =>
     match argNat? ws "m", argNat? ws "n" with
     | some m, some n => if m < 1 || m > n then (s, "bad-op") else (s, "ok " ++ nlist (dealOf ws m n))
